@@ -198,6 +198,9 @@ def judge (c : Cfg Float) (rows : List Seq) (ranges : List Int) (m : List (List 
     | some v =>
       if huge s then
         (if close 1e-9 e v || e.isNaN || (isSubst e && e > 0) || polluted e then "" else undefinedCause p e)
+      else if attrib && v < 0 then
+        -- frequencies that do not sum to one can make F84 / TN93 negative; the matrix then substitutes
+        (if isSubst e || polluted e || e == 0 || e.isNaN then "" else "formula")
       else if !close 1e-9 e v then
         (match raw p.1 p.2 with
          | some rv =>
